@@ -6,6 +6,8 @@ from __future__ import annotations
 import itertools
 import json
 import os
+
+import numpy as np
 import random
 import shutil
 import tempfile
@@ -194,6 +196,10 @@ GRID_HISTORIES = {
 }
 
 
+class TransformMixup(Exception):
+    """Overlapping passes got each other's process_record."""
+
+
 def _timed(fn, timeout=90):
     box = {}
 
@@ -341,8 +347,24 @@ def read_grid(task: dict) -> dict:
                 partial = {"passes": [], "error": None}
 
                 def lock(partial=partial, iface=iface):
-                    big = readers.iterate(handles["reopened"], iface, large, repeat=False, shuffle=0,
-                                          file_parallelism=2)
+                    # the long pass carries a transformation of its own (tfdata has none to give), the short passes
+                    # carry none: each pass must get exactly its own - applied once to every one of its examples
+                    mark = (lambda ex: {"id": ex["id"] + 5000}) if iface != "tfdata" else None  # noqa: E731
+                    big_raw = readers.iterate(handles["reopened"], iface, large, repeat=False, shuffle=0,
+                                              file_parallelism=2, process_record=mark)
+
+                    def unmarked(stream):
+                        for ex_ in stream:
+                            v_ = readers.ex_id(ex_)
+                            if mark is not None:
+                                if v_ < 5000 or v_ >= 10000:
+                                    raise TransformMixup(f"the transformation of the long pass was applied "
+                                                     f"{'twice' if v_ >= 10000 else 'not at all'} to example "
+                                                     f"{v_ % 5000}")
+                                v_ -= 5000
+                            yield {"id": np.asarray([v_])}
+
+                    big = unmarked(big_raw)
                     got_big = []
                     partial["passes"].append((large, got_big, False))
                     big_done = False
@@ -354,6 +376,9 @@ def read_grid(task: dict) -> dict:
                             partial["passes"].append((small, got, False))
                             for ex in it:
                                 got.append(readers.ex_id(ex))
+                                if got[-1] >= 5000:
+                                    raise TransformMixup(f"a short pass yielded example {got[-1] - 5000} with the long "
+                                                     f"pass' transformation applied")
                                 if not big_done:
                                     try:
                                         got_big.append(readers.ex_id(next(big)))
@@ -363,6 +388,8 @@ def read_grid(task: dict) -> dict:
                         if not big_done:
                             got_big += [readers.ex_id(e) for e in big]
                         partial["passes"][0] = (large, got_big, True)
+                    except TransformMixup as exc:
+                        partial["mixup"] = str(exc)
                     except BaseException as exc:  # pylint: disable=broad-except
                         partial["error"] = f"{type(exc).__name__}: {str(exc)[:160]}"
 
@@ -372,6 +399,8 @@ def read_grid(task: dict) -> dict:
                 if status == "hang":
                     out["problems"].append(("hang", desc + ": no result within the watchdog", {"iface": iface}))
                     return out
+                if partial.get("mixup"):
+                    out["problems"].append(("process_record", desc + ": " + partial["mixup"], {"iface": iface}))
                 if partial["error"]:
                     # a loud failure of overlapping passes is outside C02 (which speaks about what is yielded); what
                     # WAS yielded until then is still judged (nothing foreign, nothing twice)
